@@ -22,7 +22,9 @@ RULE = (
     "views with text sofas incl. astral text, every primitive / array / list kind, inline and shared collections, null "
     "elements, cycles, referenced-only structures, reserved feature names, special floats; extended DocumentAnnotation in "
     "half of the cases), written once by the implementation and then sent through both chains XMI -> CAS -> JSON -> CAS "
-    "and JSON -> CAS -> XMI -> CAS. The JSON type system mode (FULL / MINIMAL / NONE) and the type system source (the "
+    "and JSON -> CAS -> XMI -> CAS; a third chain XMI -> CAS -> JSON -> CAS starts from an XMI document that does not mention "
+    "_InitialView (the same content with the former initial view as a named view; the Sofa and View elements of the unused "
+    "initial view dropped, as UIMA writes it). The JSON type system mode (FULL / MINIMAL / NONE) and the type system source (the "
     "original one, or only what the JSON document embeds — for the final XMI load the type system of the CAS loaded from "
     "JSON) are enumerated round-robin. A case is non-trivial when the CAS has >= 2 feature structures and an inlined "
     "collection (a collection feature without multipleReferencesAllowed that is set)."
@@ -108,6 +110,44 @@ def norm(cc):
     return out
 
 
+def no_initial_variant(sc):
+    """The same content in a CAS whose initial view is unused: a fresh empty _InitialView in front, the former one becomes
+    the named view `view0`.  Sofas then take the ids 1..n+1; a structure that had the id n+1 gets a fresh one."""
+    c = copy.deepcopy(sc)
+    cs = c["cspec"]
+    n = len(cs["views"])
+    old = cs["views"]
+    cs["views"] = [{"name": "_InitialView", "text": None, "mime": None, "uri": None, "array": None}] + \
+                  [dict(v, name=("view0" if i == 0 else v["name"])) for i, v in enumerate(old)]
+    cs["members"] = [[vi + 1, lab] for vi, lab in cs["members"]]
+    ids = [o["id"] for o in cs["objs"] if o.get("id") is not None]
+    for o in cs["objs"]:
+        if o.get("id") == n + 1:
+            o["id"] = max(ids + [n + 1]) + 1
+        for k, v in o["slots"].items():
+            if isinstance(v, dict) and v.get("sofa") == "_InitialView":
+                o["slots"][k] = {"sofa": "view0"}
+    return c
+
+
+def drop_initial(xmi_text):
+    """The document without the Sofa and View elements of the initial view, as UIMA writes a CAS that only uses named
+    views; None when the initial view is in use (text, mime type, URI, array or members)."""
+    import xml.etree.ElementTree as ET
+    root = ET.fromstring(xmi_text.encode("utf-8"))
+    cas_ns = "{" + xmlabs.NS_CAS + "}"
+    xmi_id = "{http://www.omg.org/XMI}id"
+    sofa = next((e for e in root if e.tag == cas_ns + "Sofa" and e.get("sofaID") == "_InitialView"), None)
+    if sofa is None or any(sofa.get(a) is not None for a in ("sofaString", "mimeType", "sofaURI", "sofaArray")):
+        return None
+    views = [e for e in root if e.tag == cas_ns + "View" and e.get("sofa") == sofa.get(xmi_id)]
+    if any((e.get("members") or "").strip() for e in views):
+        return None
+    for e in [sofa] + views:
+        root.remove(e)
+    return ET.tostring(root, encoding="unicode")
+
+
 def run_impl(cassis, sc):
     cfg = sc["cfg"]
     mode = _mode(cassis, cfg["mode"])
@@ -141,6 +181,20 @@ def run_impl(cassis, sc):
     b2.to_json(type_system_mode=mode)  # gives the inlined collections of the XMI-loaded CAS their ids
     obs["b2_json"] = scen.canon(b2, "json")
     obs["b2_xmi_after"] = scen.canon(b2, "xmi")
+    # chain N: XMI -> CAS -> JSON -> CAS from a document that does not mention _InitialView (only named views): the reader
+    # keeps the pre-created initial view under the next free xmi:id / sofaNum, and the id generators start behind it
+    _ts, casn, _v, _o = c02.build(cassis, no_initial_variant(sc))
+    xn = drop_initial(casn.to_xmi(pretty_print=cfg["pretty"]))
+    if xn is not None:
+        n1 = cassis.load_cas_from_xmi(xn, typesystem=orig())
+        obs["n1_xmi_before"] = scen.canon(n1, "xmi")
+        jn = n1.to_json(pretty_print=cfg["pretty"], type_system_mode=mode)
+        obs["n_doc"] = J.parse(jn)
+        obs["n1_json"] = scen.canon(n1, "json")
+        obs["n1_xmi"] = scen.canon(n1, "xmi")
+        n2 = cassis.load_cas_from_json(jn, typesystem=None if cfg["src"] == "embedded" else orig())
+        obs["n2_xmi"] = scen.canon(n2, "xmi")
+        obs["n2_json"] = scen.canon(n2, "json")
     return obs
 
 
@@ -167,6 +221,16 @@ def oracle(cassis, sc, obs):
     d = c02._diff(obs["b2_xmi"], obs["b2_xmi_after"])
     if d:
         return f"to_json changed the CAS loaded from XMI at the end of chain B ({tag}): {d}"
+    if "n_doc" in obs:
+        d = c02._diff(obs["n1_xmi_before"], obs["n1_xmi"])
+        if d:
+            return f"to_json changed the CAS loaded from an XMI document without _InitialView ({tag}): {d}"
+        d = c02._diff(norm(obs["n1_xmi"]), norm(obs["n2_xmi"]))
+        if d:
+            return f"XMI without _InitialView -> CAS -> JSON -> CAS: final CAS differs from the one loaded first ({tag}): {d}"
+        d = c02._diff(obs["n1_json"], obs["n2_json"])
+        if d:
+            return f"XMI without _InitialView -> CAS -> JSON -> CAS: JSON view differs ({tag}): {d}"
     return None
 
 
@@ -181,7 +245,12 @@ def render(sc, obs):
     t = (f"mkCase {scen.g_schema(schema, names)} {xc.g_ftab(sc['cspec'])}\n ({c02.g_cas(sc)})\n ({xmlabs.g_xdoc(obs['a_xmi'])})\n ({g(obs['a1_json'])}) "
          f"({g(obs['a1_xmi'])})\n ({J.gallina(obs['a_doc'])})\n ({g(obs['a2_json'])}) ({g(obs['a2_xmi'])})\n "
          f"({J.gallina(obs['b_doc'])})\n ({g(obs['b1_json'])}) ({g(obs['b1_xmi'])})\n ({xmlabs.g_xdoc(obs['b_xmi'])})\n "
-         f"({g(obs['b2_json'])}) ({g(obs['b2_xmi'])})")
+         f"({g(obs['b2_json'])}) ({g(obs['b2_xmi'])})\n ")
+    if "n_doc" in obs:
+        t += (f"(Some (mkChainN ({J.gallina(obs['n_doc'])})\n ({g(obs['n1_json'])}) ({g(obs['n1_xmi'])}) "
+              f"({g(obs['n2_json'])}) ({g(obs['n2_xmi'])})))")
+    else:
+        t += "None"
     return t.replace("%string", "")
 
 
